@@ -198,16 +198,6 @@ fn run_once(
     let mut blocked: Vec<Value> = Vec::new();
     let mut aux: HashMap<usize, String> = HashMap::new();
     let mut wrapped = |v: &View| -> usize {
-        if let Some((t, w)) = v.last {
-            if !matches!(w, Want::Yield(_)) {
-                let a = w.addr();
-                let n = names.get(&a).cloned().unwrap_or_else(|| {
-                    let l = aux.len() + 1;
-                    aux.entry(a).or_insert_with(|| format!("aux{}", l)).clone()
-                });
-                grants.push(json!([t + 1, n, w.mode()]));
-            }
-        }
         if v.enabled.is_empty() {
             for (i, s) in v.status.iter().enumerate() {
                 if let Status::Waiting(w) = s {
@@ -225,6 +215,18 @@ fn run_once(
         chooser(v)
     };
     let rr = sched::run(bodies, &mut wrapped, Duration::from_millis(job.hang_ms));
+    for (t, w) in &rr.grants {
+        if matches!(w, Want::Yield(_)) {
+            grants.push(json!([t + 1, "start", "y"]));
+        } else {
+            let a = w.addr();
+            let n = names.get(&a).cloned().unwrap_or_else(|| {
+                let l = aux.len() + 1;
+                aux.entry(a).or_insert_with(|| format!("aux{}", l)).clone()
+            });
+            grants.push(json!([t + 1, n, w.mode()]));
+        }
+    }
     let res = results.lock().unwrap().clone();
     (rr, res, grants, blocked)
 }
@@ -283,6 +285,10 @@ pub fn cmd_conc(args: &[String]) -> i32 {
             }
             let fx: Vec<&Fixture> = job.fixtures.iter().map(|n| &runner.fixtures[n]).collect();
             let names = lock_names(&fx);
+            let vis0: Vec<(String, String, bool)> =
+                fx.iter().map(|f| (f.name.clone(), f.cache_name.clone(), false)).collect();
+            let sts0 = snapshot_visible(&vis0);
+            let ver0 = current_version();
             let mut depth = 0usize;
             let mut last_thread: Option<usize> = None;
             let mut preemptions = 0usize;
@@ -371,6 +377,14 @@ pub fn cmd_conc(args: &[String]) -> i32 {
                         if let Value::Object(m) = &mut line {
                             m.insert("prog".into(), json!(prog.id));
                             m.insert("ops".into(), ops_json(&res));
+                            m.insert("sts0".into(), sts0.clone());
+                            m.insert("ver0".into(), json!(ver0));
+                            m.insert(
+                                "program".into(),
+                                json!(prog.threads.iter().map(|t| t.iter().map(|o| json!({
+                                    "op": o.op, "f": o.f, "k": o.k, "x": o.x, "ok": o.ok, "cif": o.cif,
+                                    "sel": if o.sel.is_null() { json!([]) } else { o.sel.clone() }})).collect::<Vec<_>>()).collect::<Vec<_>>()),
+                            );
                             m.insert("grants".into(), json!(grants));
                             m.insert("choices".into(), json!(rr.choices));
                             m.insert("steps".into(), json!(rr.steps));
